@@ -38,7 +38,7 @@ reg('C06', 'harness.hist', design_ref='6/C06',
     stubs=HIST_STUBS, assumptions=HIST_ASSUME, expect_labels=['C06:lru', 'C06:mru', 'C06:lfu', 'C06:rr', 'C06:hit-keeps'])
 reg('C07', 'harness.hist', design_ref='6/C07',
     bounds={'quick': '5 calls, no_cache + four bounded policies, purge on/off, both modules, cache + dict_archive; 3 steps with the management alphabet; scripts refill/reload; results None/0 and failing calls; file/dir/sqlite-file archives at 3 calls read back through a NEW handle / NEW sqlite connection (what another process sees), with results the archive cannot encode (uninterpreted predicate)',
-            'thorough': '7 calls; plus non-flat stringmap keys at 5 calls'},
+            'thorough': '6 calls; plus non-flat stringmap keys at 5 calls; persistent backends with symbolic maxsize at 4 calls'},
     outside='file/dir/sql backends with symbolic keys (their dict refinement is C03); what a cache does AFTER an archive refused an unencodable value (the history ends at the first refused write: observed, not claimed - no_cache then keeps the entry in memory, fails every later dump and may drop unarchived entries on a hit)', stubs=HIST_STUBS,
     assumptions=HIST_ASSUME, expect_labels=['C07:leaver-archived', 'C07:archive-monotone'])
 reg('C15', 'harness.hist', design_ref='6/C15',
@@ -51,13 +51,13 @@ reg('C08', 'harness.sync', design_ref='6/C08',
     stubs=[], assumptions=['keys and values are opaque atoms (arbitrary hashable objects)', 'drop()/archived(True) with no archive at all may raise ValueError (the statement does not forbid it)'],
     expect_labels=['C08:memory', 'C08:archive', 'C08:flag', 'C08:null-empty'])
 KEY_ASSUME = ['argument values and default objects are opaque atoms (arbitrary hashable, non-fast-type objects different from every literal)',
-              'signature shapes are concrete programs generated by exec: 0-3 positional-or-keyword parameters with any suffix defaulted, optional *args, 0-2 keyword-only parameters with/without default, optional **kw (quick: 24 representative shapes; thorough: all 336)',
+              'signature shapes are concrete programs generated by exec: 0-3 positional-or-keyword parameters with any suffix defaulted, optional *args, 0-2 keyword-only parameters with/without default, optional **kw (quick: 24 representative shapes; thorough: 72 + the quick ones; C19 thorough: all 336)',
               'call B uses the canonical spelling; all pairs of spellings follow by transitivity through it',
               'serialising keymaps run over the structural str/repr/digest/pickle stubs: no digest collisions, pickle injective and order-preserving']
 KEY_STUBS = ['klepto.crypto str/repr/hashlib/dumps/__hash -> structural injective versions (stubs/cryptoshim.py)']
 reg('C09', 'harness.keys', design_ref='6/C09',
     bounds={'quick': '24 shapes x 7 keymaps (+ klepto.keygen): call A in every spelling (positional count, omitted defaults, keyword order, 0-2 extra positionals, 0-2 extra keywords) vs canonical call B; a sibling function of the same code object with other defaults is used first; methods (instance as first argument); 19 parameter names that coincide with klepto-internal parameter names (self, func, ignored, key, ...)',
-            'thorough': 'all 336 shapes x 11 keymaps'},
+            'thorough': 'the 72 shapes with at most 2 positional-or-keyword and 1 keyword-only parameter (plus the quick shapes) x 11 keymaps'},
     outside='more than 3 positional / 2 keyword-only parameters, more than 2 extras; functools.partial objects; concrete fast-type argument values other than the listed witnesses',
     stubs=KEY_STUBS, assumptions=KEY_ASSUME, expect_labels=['C09:canonical'])
 reg('C10', 'harness.keys', design_ref='6/C10',
@@ -66,12 +66,12 @@ reg('C10', 'harness.keys', design_ref='6/C10',
     stubs=KEY_STUBS, assumptions=KEY_ASSUME, expect_labels=['C10:distinct'])
 reg('C11', 'harness.keys', design_ref='6/C11',
     bounds={'quick': '24 shapes x ignore specifications of <= 3 elements drawn from parameter names, indices, \'*\', \'**\' (a selection) x {raw, str} keymaps + klepto.keygen; single-element specifications also given bare (ignore=0, ignore=\'a\'); methods with self ignored by name, alone and with names, * and **',
-            'thorough': 'the 144 shapes with at most one keyword-only parameter x every specification of <= 2 elements and a spread of the 3-element ones x 4 keymaps'},
+            'thorough': 'the 72 shapes with at most 2 positional-or-keyword and 1 keyword-only parameter (plus the quick shapes) x every specification of <= 2 elements and a spread of the 3-element ones x 4 keymaps'},
     outside='presence/absence of an extra argument that is ignored by index or by name (not specified by the statement: neither direction demanded); index specifications on methods whose self is ignored (klepto renumbers after removing self: not specified)',
     stubs=KEY_STUBS, assumptions=KEY_ASSUME, expect_labels=['C11:merges', 'C11:discriminates'])
 reg('C17', 'harness.keys', design_ref='6/C17',
     bounds={'quick': '24 shapes x ignore specifications (<= 3 elements) x 5 keymaps: the key of one call computed under two independent symbolic iteration orders of every set built in klepto._inspect/klepto.keymaps; session scenario: session 1 has first computed the key of a call that differs only in the type of an equal argument (1 / 1.0 / True), session 2 is fresh (every mutable module-level container of klepto reset, python hash() values differ): key and dir_archive entry name must agree; entry name of 11 concrete key witnesses (path separators, blanks, pickled bytes, ints, tuples) in two sessions',
-            'thorough': 'the 144 shapes with at most one keyword-only parameter x every specification of <= 2 elements and a spread of the 3-element ones x 6 keymaps; session scenario on all such shapes x 10 keymaps'},
+            'thorough': 'the 72 shapes with at most 2 positional-or-keyword and 1 keyword-only parameter (plus the quick shapes) x every specification of <= 2 elements and a spread of the 3-element ones x 6 keymaps; session scenario on all such shapes x 12 keymaps'},
     outside='that archived results are then found by a later OS process (C04, excluded there); process state kept anywhere else than in set iteration order, python hash() values, keyword order and mutable module-level containers / lru_cache wrappers of the klepto modules (e.g. closure cells)',
     stubs=KEY_STUBS + ['names `set`/`frozenset` in klepto._inspect / klepto.keymaps / klepto._archives, and the set constants those modules built at import -> subclasses with symbolic iteration order: every permutation up to 4 elements, the family {sorted, reversed, rotated, odd-first} above (set displays would bypass it; none occur in the anchored code)', 'python hash() -> injective wrapper tagged with the simulated session'],
     assumptions=KEY_ASSUME, expect_labels=['C17:stable'])
@@ -91,7 +91,7 @@ def _arch_stubs():
         return ['model POSIX file system + re-bound os/posixpath/shutil/pox, lossless chunk serializers, sqlite codec (see stubs/)']
 reg('C03', 'harness.arch', design_ref='6/C03',
     bounds={'quick': 'archives dict, null, file(pickle), file(json), dir(pickle), dir(json), dir(fast), sqltable(:memory:), sqltable(db file): symbolic write prefix of <= 2 writes/deletes, then every operation of the 24-operation mapping alphabet with symbolic arguments (stores <= 3 entries); for persistent archives also 1 write + 2 operations (first from the 8 mutating ones); sibling archive isolation after every step; alias witnesses',
-            'thorough': 'prefix <= 3 then 1 operation; 1 write then every pair of operations'},
+            'thorough': 'prefix <= 3 then 1 operation; 1 write then every pair (first from the 10 mutating operations, second any) on all 7 stored kinds'},
     outside="serialized=False (source-text) archives, klepto._pickle internals (compression, memmap), HDF and sqlalchemy classes; real json turning int keys into str; dir/sql keys outside the concrete universes {'a','c-d',1,('t',2)} (dir) and {'a','b',1} (sql); more than 3 stored entries",
     stubs=[], assumptions=['dict/null/file archives: keys and values are opaque atoms; dir/sql archives: keys from a concrete universe behind a symbolic selector, values atoms',
                             'distinct dir keys are assumed to have distinct file names except in the alias scenario (which checks exactly that on witnesses)'],
